@@ -7,14 +7,19 @@ extra = sys.argv[3:]
 for m in sorted(glob.glob(os.path.join(wt, "_out", "m*"))):
     name = "%s-%s%s" % (prop, os.environ.get("SEED_BATCH", ""), os.path.basename(m))
     dst = os.path.join("/verif/seeded", name)
-    r = subprocess.run(["/verif/tools/confirm_seed.sh", wt, m], stdout=subprocess.PIPE, text=True)
-    line = r.stdout.strip().splitlines()[-1] if r.stdout.strip() else "{}"
-    try: conf = json.loads(line)
-    except Exception: conf = {"raw": line}
-    if r.returncode != 0:
+    cached = os.path.join(m, "confirm.json")   # written by a parallel pre-pass (tools/preconfirm.sh) in the same worktree
+    if os.path.exists(cached):
+        c = json.load(open(cached)); conf, rc = c["conf"], c["rc"]
+    else:
+        r = subprocess.run(["/verif/tools/confirm_seed.sh", wt, m], stdout=subprocess.PIPE, text=True)
+        line = r.stdout.strip().splitlines()[-1] if r.stdout.strip() else "{}"
+        try: conf = json.loads(line)
+        except Exception: conf = {"raw": line}
+        rc = r.returncode
+    if rc != 0:
         print(name, "NOT CONFIRMED", conf); continue
     os.makedirs(dst, exist_ok=True)
-    for f in ("patch.diff", "demo_test.go"):
+    for f in ("patch.diff", "demo_test.go"):  # confirm.json stays behind
         shutil.copy(os.path.join(m, f), os.path.join(dst, f))
     try: meta = json.load(open(os.path.join(m, "meta.json")))
     except Exception: meta = {}
